@@ -168,7 +168,28 @@ func vSmallXfer(rc *runCtx, timeouts []int) (*vXferConfig, *xferOpts, vSnap) {
 	if pipelined {
 		cfg.bufSize = []string{"1K", "4k"}[tp.Draw("f.pbuf", 2)]
 	}
+	dataflips := rc.param("dataflips", "") == "1"
+	if dataflips {
+		// every bit of the data chunks: small files that travel uncompressed (a damaged compressed stream fails
+		// in the decoder; an uncompressed one has only the digest between it and the disk)
+		cfg.compress = "no"
+		cfg.bufSize = ""
+		cfg.dirMode = false
+		pipelined = false
+	}
 	spec := vGenSources(rc, src, 3, cfg.dirMode, 40000, !cfg.overwrite)
+	if dataflips {
+		for _, p := range spec.paths {
+			os.RemoveAll(p)
+		}
+		spec.paths = nil
+		spec.files = 1 + tp.Draw("f.dfiles", 2)
+		for i := 0; i < spec.files; i++ {
+			p := filepath.Join(src, fmt.Sprintf("d%d.bin", i))
+			vWriteFile(p, tp.Bytes("f.dcontent", 60+tp.Draw("f.dsize", 300)))
+			spec.paths = append(spec.paths, p)
+		}
+	}
 	if pipelined {
 		big := tp.Bytes("f.pbig", 40000+tp.Draw("f.pbigsz", 90000))
 		p := spec.paths[0]
